@@ -75,7 +75,32 @@ func ruleRebuiltListStorage(w *core.World, r *core.Report) {
 	chain := map[ssa.Value]bool{}
 	var writes []ssa.Instruction // appends to the list under construction
 	shared, unknown := false, ""
+	// the functions the list is built in: InsertSlotInList, its closures, the helpers they call
+	var scopeFns []*ssa.Function
+	scope := func() []*ssa.Function {
+		if scopeFns != nil {
+			return scopeFns
+		}
+		seen := map[*ssa.Function]bool{}
+		var add func(g *ssa.Function, depth int)
+		add = func(g *ssa.Function, depth int) {
+			if g == nil || seen[g] || len(g.Blocks) == 0 || !inModule(g) || depth > 3 {
+				return
+			}
+			seen[g] = true
+			scopeFns = append(scopeFns, g)
+			for _, c := range g.AnonFuncs {
+				add(c, depth)
+			}
+			for _, s := range core.Sites(g, false) {
+				add(s.Callee, depth+1)
+			}
+		}
+		add(f, 0)
+		return scopeFns
+	}
 	var grow func(v ssa.Value)
+	var growResult func(c *ssa.Call, idx int)
 	grow = func(v ssa.Value) {
 		v = core.Unwrap(v)
 		if chain[v] {
@@ -91,6 +116,9 @@ func ruleRebuiltListStorage(w *core.World, r *core.Report) {
 			if _, isArr := x.X.(*ssa.Alloc); isArr {
 				return // a slice literal: an array of its own
 			}
+			if x.Max != nil && isConstInt(0)(x.Max) {
+				return // s[:0:0] has no capacity: the first append allocates an array of its own
+			}
 			grow(x.X)
 		case *ssa.MakeSlice:
 		case *ssa.Const:
@@ -103,13 +131,70 @@ func ruleRebuiltListStorage(w *core.World, r *core.Report) {
 				grow(c.Call.Args[0])
 				return
 			}
-			unknown = "the result of " + core.ResolveCall(x).Name
+			growResult(x, 0)
+		case *ssa.Extract:
+			if c, ok := x.Tuple.(*ssa.Call); ok {
+				growResult(c, x.Index)
+				return
+			}
+			unknown = v.Name() + " (" + v.Type().String() + ")"
+		case *ssa.Parameter:
+			// a helper (or closure) that is handed the list under construction: what its callers pass
+			g := x.Parent()
+			idx := -1
+			for i, p := range g.Params {
+				if p == x {
+					idx = i
+				}
+			}
+			found := false
+			for _, h := range scope() {
+				for _, in := range core.OwnInstrs(h) {
+					ci, ok := in.(ssa.CallInstruction)
+					if !ok || core.ResolveCall(ci).Callee != g || idx >= len(ci.Common().Args) {
+						continue
+					}
+					found = true
+					grow(ci.Common().Args[idx])
+				}
+			}
+			if !found {
+				unknown = "the parameter " + x.Name() + " of " + shortName(core.FuncName(g))
+			}
 		default:
 			if isListLoad(v) {
 				shared = true
 				return
 			}
+			// a local variable shared with a closure (or spilled): whatever is stored into it, wherever
+			if ld, ok := v.(*ssa.UnOp); ok && ld.Op == token.MUL {
+				if cell := core.Cell(ld.X); cell != nil {
+					for _, st := range core.CellStores(cell) {
+						grow(st.Val)
+					}
+					return
+				}
+			}
 			unknown = v.Name() + " (" + v.Type().String() + ")"
+		}
+	}
+	growResult = func(c *ssa.Call, idx int) {
+		g := core.ResolveCall(c).Callee
+		if g == nil || len(g.Blocks) == 0 || !inModule(g) {
+			unknown = "the result of " + core.ResolveCall(c).Name
+			return
+		}
+		n := 0
+		for _, in := range core.OwnInstrs(g) {
+			if ret, ok := in.(*ssa.Return); ok && idx < len(ret.Results) {
+				n++
+				for _, rv := range core.RetVals(ret, idx) {
+					grow(rv)
+				}
+			}
+		}
+		if n == 0 {
+			unknown = "the result of " + core.ResolveCall(c).Name
 		}
 	}
 	for _, st := range stores {
@@ -351,7 +436,7 @@ func ruleReplayResultIsPublishedError(w *core.World, r *core.Report) {
 	r.Check(bad == "" && paths > 0, construct, pos, "%s", bad)
 }
 
-// ---------------------------------------------------------------- R14.14 in sync mode the start point is what the target committed
+// ---------------------------------------------------------------- R14.15 in sync mode the start point is what the target committed
 
 // ruleStartPointFromTargetInSyncMode: the in-process resume point (bisyncSeq /
 // bisyncOffset) is advanced when a unit's reply has been read: it is the last
@@ -384,35 +469,6 @@ func ruleStartPointFromTargetInSyncMode(w *core.World, r *core.Report) {
 		}
 		n := core.FieldName(fa)
 		return n == "bisyncSeq" || n == "bisyncOffset"
-	}
-	// functions of the package (reached from the start-point computation by plain calls) that read the position
-	memo := map[*ssa.Function]int{} // 0 unknown, 1 reads, 2 does not, 3 in progress
-	var reads func(g *ssa.Function, depth int) bool
-	reads = func(g *ssa.Function, depth int) bool {
-		if g == nil || len(g.Blocks) == 0 || depth > 4 {
-			return false
-		}
-		switch memo[g] {
-		case 1:
-			return true
-		case 2, 3:
-			return false
-		}
-		memo[g] = 3
-		res := false
-		for _, s := range core.Sites(g, true) {
-			if readsPosition(s) {
-				res = true
-			} else if s.Callee != nil && s.Callee.Pkg == f.Pkg && s.Callee != f && reads(s.Callee, depth+1) {
-				res = true
-			}
-		}
-		if res {
-			memo[g] = 1
-		} else {
-			memo[g] = 2
-		}
-		return res
 	}
 	// is v the configured replay mode?
 	isMode := func(v ssa.Value) bool {
@@ -461,6 +517,37 @@ func ruleStartPointFromTargetInSyncMode(w *core.World, r *core.Report) {
 			}
 		}
 		return false
+	}
+	// functions of the package (reached from the start-point computation by plain calls) in which the position is
+	// read on a way that sync mode can take: the read, or the call that leads to it, is not guarded in that function
+	memo := map[*ssa.Function]int{} // 0 unknown, 1 reads, 2 does not, 3 in progress
+	var reads func(g *ssa.Function, depth int) bool
+	reads = func(g *ssa.Function, depth int) bool {
+		if g == nil || len(g.Blocks) == 0 || depth > 4 {
+			return false
+		}
+		switch memo[g] {
+		case 1:
+			return true
+		case 2, 3:
+			return false
+		}
+		memo[g] = 3
+		res := false
+		for _, s := range core.Sites(g, true) {
+			if !readsPosition(s) && !(s.Callee != nil && s.Callee.Pkg == f.Pkg && s.Callee != f && reads(s.Callee, depth+1)) {
+				continue
+			}
+			if !core.HoldsInto(s.Instr.Block(), excludedInSync) {
+				res = true
+			}
+		}
+		if res {
+			memo[g] = 1
+		} else {
+			memo[g] = 2
+		}
+		return res
 	}
 	n := 0
 	for _, s := range core.Sites(f, true) {
